@@ -63,6 +63,16 @@ def graph(date: str, targets: tuple | None = None):
     return dag, fno
 
 
+def simulate_all(df, date, **kw):
+    """All function nodes of the default graph as targets, plus the data columns."""
+    nodes = computed_nodes(date)
+    res = simulate(df, date, targets=nodes, **kw)
+    for c in df.columns:
+        if c not in res.columns:
+            res[c] = df[c].to_numpy()
+    return res
+
+
 def computed_nodes(date: str, targets: tuple | None = None) -> list[str]:
     """All function nodes of the default graph (no data columns, no *_params)."""
     dag, fno = graph(date, targets)
